@@ -109,7 +109,7 @@ static void drain_all (void)
 static void emit_round (int c, const char *opjson)
 {
   int i;
-  printf ("{\"e\":\"Round\",\"expMay\":0,\"expMust\":0,\"ops\":[");
+  printf ("{\"e\":\"Round\",\"actMay\":0,\"actMust\":0,\"starts\":[],\"expMay\":0,\"expMust\":0,\"ops\":[");
   for (i = 1; i <= NSLOT; i++) printf ("%s[%s]", i > 1 ? "," : "", i == c ? opjson : "");
   printf ("],\"sync\":[],\"obs\":[");
   for (i = 1; i <= NSLOT; i++)
